@@ -123,12 +123,7 @@ func (r *Receiver) SegmentHandlerFunc(w http.ResponseWriter, req *http.Request) 
 	var filePath string
 
 	trName := stream.trName
-	ch.mu.RLock()
-	masterTimescale := ch.masterTimescale
-	masterSegDur := ch.masterSegDuration
-	masterTimeShift := ch.masterTimeShift
-	masterSeqNrShift := ch.masterSeqNrShift
-	ch.mu.RUnlock()
+	masterTimescale, masterSegDur, masterTimeShift, masterSeqNrShift := ch.masterParams()
 
 	rsd := &recSegData{name: stream.trName,
 		shouldBeShifted: masterTimeShift != 0 || masterSeqNrShift != 0,
@@ -240,8 +235,8 @@ func (r *Receiver) SegmentHandlerFunc(w http.ResponseWriter, req *http.Request) 
 						}
 					}
 				}
-				if ch.maxNrBufSegs > 0 {
-					deleteSegPath := filepath.Join(stream.trDir, fmt.Sprintf("%d%s", rsd.seqNr-ch.maxNrBufSegs, stream.ext))
+				if maxNrBufSegs := ch.getMaxNrBufSegs(); maxNrBufSegs > 0 {
+					deleteSegPath := filepath.Join(stream.trDir, fmt.Sprintf("%d%s", rsd.seqNr-maxNrBufSegs, stream.ext))
 					if fileExists(deleteSegPath) {
 						log.Debug("Deleting old segment", "path", deleteSegPath)
 						err = os.Remove(deleteSegPath)
